@@ -48,7 +48,8 @@ def helper_args(helpers):
 def order_key(v):
     a = v.get("args") or []
     try:
-        return (v["sig"], a[1], int(a[2]), {"short": 0, "max": 10 ** 6}.get(a[3]) if a[3] in ("short", "max") else int(a[3]))
+        n = {"short": 0, "natural": 0, "max": 10 ** 6, "first": 0, "middle": 1, "last-dir": 2, "file": 3}.get(a[3])
+        return (v["sig"], a[1], int(a[2]), int(a[3]) if n is None else n)
     except Exception:
         return (v["sig"], "", 0, 0)
 
@@ -71,13 +72,19 @@ def run(ctx):
                                              ["--tier", ctx.tier, "--shard", str(k), str(n), "--deadline", str(int(stop_at))],
                                              tag="c20-driver"))
                 for k in range(n)]
-        vlib.parallel(jobs, workers=WORKERS)
+        results = vlib.parallel(jobs, workers=WORKERS)
     finally:
         shutil.rmtree(top, ignore_errors=True)
     # the same signature can come from several shards: keep the report independent of thread timing
     ctx.viols.sort(key=order_key)
+    # likewise the samples kept in the evidence: up to three written-out cases per grid, chosen independently of which shard finished first
+    allsamples = sorted(rec["v"] for recs in results for rec in recs if rec.get("t") == "sample")
+    ctx.samples = []
+    for g in "ABCD":
+        ctx.samples += [v for v in allsamples if v.startswith("[grid %s," % g)][:3]
 
     ctx.stat("helper_builds", len(helpers))
+    thorough = ctx.tier == "thorough"
     ctx.rule = (
         "one evaluation = one run of the helper program installed at one path and started one way, judged on executable_path(), prefix_path() "
         "and endianness(). Grid A = depth (directories below the scratch root) x total byte length of the absolute path x flavour of every name "
@@ -86,18 +93,27 @@ def run(ctx):
         "quick: depth {1,2,3,8,40} x length {short, 1000, 1022, 1023, 1024, 1025, 2048, 4000, 4095, max-for-depth}; "
         "thorough: depth {1,2,3,4,5,8,16,17,40,100,1000} x length {short, 255..257, 511..513, 1000, every 1016..1032, 2047..2049, 3000, 4000, 4093..4095, max-for-depth} "
         "plus grid B = EVERY total length from the shortest creatable to PATH_MAX-1 (4095) at depth 17 x {plain, utf8, highbytes} x {direct, relative, symlink to the file}. "
+        "Grid C = 34 names that look special to path-handling code but are ordinary bytes (ending in / equal to / containing ' (deleted)', backslashes, "
+        "trailing dot(s) or blank, leading blank, single characters incl. blank, '-', backslash, '~', 0xff, leading '-', %% $ * ? quotes newline tab, only "
+        "non-ASCII bytes) x slot {program name, its directory, a directory higher up%s} x %s x invocation %s. "
+        "Grid D = 3..6-byte names with ONE 255-byte name as {first, middle, last directory, program name} x depth %s x flavour %s x invocation %s. "
         "The requested length is spread evenly over the depth+1 names (each 1..255 bytes); (depth, length) cells that no such split reaches are counted in "
         "cells_not_creatable / cases_not_creatable and are not part of the space. "
         "distinct_nontrivial = distinct (install path below the root, invocation) pairs that are NOT of the kind the test-suite already runs, i.e. excluding "
         "plain-ASCII paths shorter than 256 bytes started directly or as ./name; the second helper build does not add to it"
-        % (", symlink to a symlink to the file" if ctx.tier == "thorough" else "", [h[0] for h in helpers]))
+        % ((", symlink to a symlink to the file" if thorough else "", [h[0] for h in helpers]) +
+           ((", all three", "total length {natural (depth 4 between opt/local/app/bin/prog), 1023, 1024, 2048, 4095 (depth 17, plain padding)}", "as grid A",
+             "{3,4,8,17,40,100}", "all 6", "as grid A") if thorough else
+            ("", "natural length (depth 4 between opt/local/app/bin/prog)", "{direct, symlink to the file}", "{3,8}", "{plain, spaces, highbytes}",
+             "{direct, symlink to the file}"))))
     ctx.assumptions += [
         "the oracle is the path the driver created (canonical scratch root + the names it generated); it is never read back from the program under test",
         "Linux x86-64 only: the _WIN32, __APPLE__, __FreeBSD__ and __sun branches of xsystem.hpp and the big-endian / mixed answers of endianness() are unreachable on this platform",
-        "install paths live under a mkdtemp directory in /tmp (ext4 here); names are at most NAME_MAX=255 bytes and never '.' or '..'; hard links, bind mounts, chroot, deleted or replaced executables and paths longer than PATH_MAX-1 are outside the alphabet",
+        "install paths live under a mkdtemp directory in /tmp (ext4 here); names are at most NAME_MAX=255 bytes and never '.' or '..'; hard links, bind mounts, deleted or replaced executables and paths longer than PATH_MAX-1 are outside the alphabet",
+        "a program installed directly in / or one directory below / is not enumerated: creating it needs either a write into the real root directory (outside the scratch root) or chroot + a mounted /proc inside it (CAP_SYS_CHROOT + CAP_SYS_ADMIN)",
         "through a symlink the expected answer is the canonical path of the real file (what the property's observable, realpath(/proc/self/exe), denotes)",
         "AddressSanitizer (recover mode, stack redzones) is the observer for 'without reading or writing outside its internal buffer'; an access that stays inside a redzone-free neighbouring object of the same frame would not be seen",
-        "name lengths inside one path are uniform (+-1); mixtures of very short and very long names in one path are not enumerated",
+        "name lengths inside one path are uniform (+-1) in grids A/B; grid D adds exactly one 255-byte name among short ones; other length mixtures are not enumerated",
     ]
     ctx.note("prefix_path() failures on a case where executable_path() itself failed are folded into the executable_path violation (same defect), "
              "they are counted in prefix_failures_folded_into_executable_path_failure")
